@@ -225,6 +225,8 @@ def report(prop, args, results, kf_lines, kf_replayed, known, wall, seed):
         vac_sat += v.get("paths_sat", 0)
         if v.get("paths_checked", 0) and v.get("paths_sat", 0) == 0 and not r.get("unsupported"):
             crashes.append((r["unit"], r.get("cfg"), "vacuity: no completed path is satisfiable (contradictory assumptions)"))
+        for cname in v.get("covers_unsat", []):
+            crashes.append((r["unit"], r.get("cfg"), f"vacuity: the assumptions of {cname} are contradictory"))
         trusted |= set(r.get("trusted", []))
         inlined |= set(r.get("inlined", []))
         applied |= set(r.get("contract_applied", []))
